@@ -129,6 +129,14 @@ def rule_handshake(chk: Check, view: AsyncView, rid: str):
             seq.append("wait_startup")
     want = ["stop", "sync.reset", "_reset", "_startup", "wait_startup", "_start"]
     chk.add(rid, "AsyncGraph.start: order", seq == want, f"start() performs {seq}, expected {want}", loc)
+    # who may wait on what: the user thread may only block on the startup tasks here; the first tick submitted by _start can run
+    # the supervisor's step, which blocks in the synchronizer until the *user thread* supplies an action
+    def _origin(t):
+        return {T.call_name(x).rsplit(".", 1)[-1] for x in T.walk(t) if x[0] == "call" and isinstance(T.call_name(x), str) and "." in T.call_name(x)}
+    waits_s = _calls(r, lambda e: e.name.endswith(".result") or e.name.endswith(".wait"))
+    bad = [e for e in waits_s if "_start" in _origin(e.recv) or "_submit" in _origin(e.recv) or "_startup" not in _origin(e.recv)]
+    chk.add(rid, "AsyncGraph.start: waits only for the startup tasks", not bad, "start() blocks on " + "; ".join(T.show(e.recv)[:80] for e in bad[:2]) +
+            ": the user thread may wait for _startup futures only (a task submitted by _start may be the supervisor step, which waits for the user thread)", loc)
     eps_assert = [e for e in r.events if e.kind == "assert" and mentions(e.term, "eps")]
     chk.add(rid, "AsyncGraph.start: same episode everywhere", len(eps_assert) == 1, "start() must assert that all nodes are in the same episode", loc)
     starts = _calls(r, lambda e: e.name.endswith("._start"))
